@@ -1,8 +1,10 @@
 import VlsModel.Drv.Common
-/- Line-protocol models serving property C03 (none yet). -/
+import VlsModel.Drv.Secrets
+/- Line-protocol models serving property C03. -/
 namespace VlsModel.Drv.C03
 open VlsModel.Drv
 
-def models : List (String × Model) := []
+def models : List (String × Model) :=
+  [ ("secrets", Secrets.model) ]
 
 end VlsModel.Drv.C03
